@@ -131,6 +131,15 @@ def _impl(tier, seed, search):
             if ok and qs is not None:
                 w2 = qs if np.dot(qs, qs2) >= 0 else -qs
                 L.close('UQ.interp=slerp', qs2, w2, TOL, 1.0, qi)
+        # moderate relative rotations (0.05 .. 0.4 rad), s away from 0, 1/2 and 1: the class method and slerp agree, and the turn is proportional to s
+        thm = float(g.uniform(0.05, 0.4)); sm = float(g.choice([0.2, 0.3, 0.75])); axm = inputs.unit_axis(g)
+        qm1 = qm(q0, np.r_[math.cos(thm / 2), math.sin(thm / 2) * axm]); wantm = qm(q0, np.r_[math.cos(sm * thm / 2), math.sin(sm * thm / 2) * axm])
+        for shortest in (False, True):
+            ok, r = L.noraise('UQ.interp(moderate)', lambda: (UnitQuaternion(q0).interp(sm, UnitQuaternion(qm1), shortest=shortest).vec, b.slerp(q0, qm1, sm, shortest=shortest)), dict(q0=q0, q1=qm1, s=sm, rel_angle=thm), 'UnitQuaternion.interp at a moderate relative rotation')
+            if ok:
+                for nm_, got_ in (('UQ.interp', r[0]), ('slerp', r[1])):
+                    gq = got_ if np.dot(got_, wantm) >= 0 else -np.asarray(got_)
+                    L.close(f'{nm_}:constant-rate(moderate)', gq, wantm, 1e-7, 1.0, dict(q0=q0, q1=qm1, s=sm, rel_angle=thm), what=f'{nm_} does not turn through s times the relative angle', sig=f'{nm_}:constant-rate')
         # the destination on the opposite hemisphere (negative inner product) without shortest: the long arc, at constant rate, exactly as slerp does
         for shortest in (False, True):
             qn = dict(q0=q0, q1=-q1, s=s, shortest=shortest, rel_angle=th)
